@@ -161,7 +161,7 @@ Theorem c09_ack_pops_head_only : forall (o : outgoing) (pkid : N) (o' : outgoing
   register_ack o pkid = (o', ok) ->
   match o_inflight o with
   | [] => o' = o /\ ok = false
-  | h :: r => o' = set_o_inflight o r /\ ok = (pkid =? pkid_of h)
+  | h :: r => if pkid =? pkid_of h then o' = set_o_inflight o r /\ ok = true else o' = o /\ ok = false
   end.
 Proof. exact register_ack_head. Qed.
 
